@@ -49,6 +49,8 @@ type c20Op struct {
 	Nonce string   `json:"nonce"`
 	Obfs  string   `json:"obfs"`
 	Pkts  []c20Pkt `json:"pkts"`
+	End   string   `json:"end"`  // rend: "timeout" | "cancel" (how a Respond that is still waiting is ended)
+	Tick  int      `json:"tick"` // rstart: hello ticker periods to let pass once Respond is blocked
 }
 
 type c20Want struct {
@@ -625,6 +627,43 @@ func shadowAt(c c20Case, opIdx int, id string) PunchMetadata {
 
 // ---------------------------------------------------------------- ServerPuncher
 
+const (
+	c20RespondTimeout  = 400 * time.Millisecond
+	c20RespondInterval = 50 * time.Millisecond
+)
+
+type c20Resp struct {
+	r   PunchResult
+	err error
+}
+
+// a ServerPuncher.Respond call in flight (at most one per history)
+type c20Flight struct {
+	id       string
+	meta     PunchMetadata
+	done     chan c20Resp
+	cancel   context.CancelFunc
+	finished bool // Respond has returned with a punch packet
+	resp     c20Resp
+}
+
+// c20Server runs a history of ServerPuncher inside a synctest bubble.  Ops:
+//
+//	add / rm      addAttempt / removeAttempt called directly (other attempts in progress)
+//	rstart        Respond(id, meta) started in its own goroutine and observed once it is blocked
+//	pkts          datagrams read through the PunchPacketConn (the QUIC read loop); before each
+//	              underlying read everything the previous datagram triggered has settled
+//	              (dispatch, Respond returning through its deferred removeAttempt)
+//	rend          the Respond in flight is observed to its end (timeout or cancellation if it is
+//	              still waiting)
+//	take          drain the channel of an attempt registered by add
+//
+// The verdict uses a shadow registry keyed by the exact id string the caller passed, the
+// implementation's own decoder and pion: a datagram must be withheld iff it is a STUN response or
+// decodes (from a usable source) under an attempt that is registered at that moment; everything
+// else must come out of ReadFrom byte-identical, with its address, in order.  In particular the
+// punch packets of an attempt whose Respond has returned must reach the reader, and its id must
+// be free again.
 func c20Server(c c20Case, res map[string]any) {
 	base := &c20Conn{}
 	wrapped, err := NewPunchPacketConn(c20NetConn{base}, c.Cap)
@@ -649,9 +688,15 @@ func c20Server(c c20Case, res map[string]any) {
 			ok, why = false, s
 		}
 	}
-	chans := map[string]<-chan PunchPacketEvent{}
-	metas := map[string]PunchMetadata{}
-	expectQ := map[string][]c20Pkt{} // datagrams expected in each attempt's channel
+	chans := map[string]<-chan PunchPacketEvent{} // channels of the attempts registered by add
+	metas := map[string]PunchMetadata{}           // shadow registry: exact id string -> metadata (add ops and the Respond in flight)
+	expectQ := map[string][]c20Pkt{}              // datagrams expected in each attempt's channel
+	var fl *c20Flight
+	metaValid := func(m PunchMetadata) bool {
+		n, e1 := hex.DecodeString(m.Nonce)
+		k, e2 := hex.DecodeString(m.Obfs)
+		return e1 == nil && e2 == nil && len(n) == 16 && len(k) == 32
+	}
 	takeAll := func(oi int, id string) []c20Ev {
 		evs := []c20Ev{}
 		ch := chans[id]
@@ -694,12 +739,10 @@ func c20Server(c c20Case, res map[string]any) {
 			meta := PunchMetadata{Nonce: op.Nonce, Obfs: op.Obfs}
 			ch, e := sp.addAttempt(op.Id, meta)
 			o["ok"] = e == nil
-			_, dup := chans[op.Id]
-			n, e1 := hex.DecodeString(op.Nonce)
-			k, e2 := hex.DecodeString(op.Obfs)
-			valid := op.Id != "" && e1 == nil && e2 == nil && len(n) == 16 && len(k) == 32 && !dup
+			_, dup := metas[op.Id]
+			valid := op.Id != "" && metaValid(meta) && !dup
 			if valid != (e == nil) {
-				fail(fmt.Sprintf("op %d: addAttempt accepted=%v, expected %v", oi, e == nil, valid))
+				fail(fmt.Sprintf("op %d: addAttempt(%q) accepted=%v, expected %v (an id is in use iff exactly this string is registered)", oi, op.Id, e == nil, valid))
 			}
 			if e == nil {
 				chans[op.Id] = ch
@@ -712,62 +755,233 @@ func c20Server(c c20Case, res map[string]any) {
 			delete(chans, op.Id)
 			delete(metas, op.Id)
 			delete(expectQ, op.Id)
+		case "rstart":
+			if fl != nil {
+				fail(fmt.Sprintf("op %d: harness: a Respond is already in flight", oi))
+				break
+			}
+			meta := PunchMetadata{Nonce: op.Nonce, Obfs: op.Obfs}
+			rctx, rcancel := context.WithCancel(ctx)
+			f := &c20Flight{id: op.Id, meta: meta, done: make(chan c20Resp, 1), cancel: rcancel}
+			local := []netip.AddrPort{netip.MustParseAddrPort("127.0.0.1:4433")}
+			peers := []netip.AddrPort{netip.MustParseAddrPort("192.0.2.7:40000")}
+			go func() {
+				r, e := sp.Respond(rctx, f.id, local, peers, meta, PunchConfig{Timeout: c20RespondTimeout, Interval: c20RespondInterval})
+				f.done <- c20Resp{r, e}
+			}()
+			synctest.Wait()
+			_, dup := metas[op.Id]
+			valid := op.Id != "" && metaValid(meta) && !dup
+			select {
+			case r := <-f.done:
+				rcancel()
+				o["ok"] = false
+				if r.err == nil {
+					fail(fmt.Sprintf("op %d: Respond(%q) returned success before any datagram arrived", oi, op.Id))
+				} else if valid {
+					fail(fmt.Sprintf("op %d: Respond(%q) rejected a valid attempt whose id is not in use: %v", oi, op.Id, r.err))
+				}
+			default:
+				o["ok"] = true
+				if !valid {
+					fail(fmt.Sprintf("op %d: Respond(%q) registered an attempt that is invalid or whose id is in use", oi, op.Id))
+				}
+				metas[op.Id] = meta
+				fl = f
+				if op.Tick > 0 { // let the hello ticker fire; Respond must keep waiting
+					time.Sleep(time.Duration(op.Tick) * c20RespondInterval)
+					synctest.Wait()
+					select {
+					case r := <-f.done:
+						f.done <- r
+						fail(fmt.Sprintf("op %d: Respond(%q) returned before its timeout although no datagram arrived", oi, op.Id))
+					default:
+					}
+				}
+			}
+		case "rend":
+			switch {
+			case fl == nil:
+				o["res"] = "none"
+			case fl.finished:
+				o["res"] = "ok"
+				o["ev"] = c20Ev{Id: fl.id, Ip: vHex(fl.resp.r.PeerAddr.Addr().AsSlice()), Port: int(fl.resp.r.PeerAddr.Port()),
+					Ty: int(fl.resp.r.Packet.Type), Pad: fl.resp.r.Packet.PaddingLength}
+			default:
+				if op.End == "cancel" {
+					fl.cancel()
+				} else {
+					time.Sleep(c20RespondTimeout + time.Millisecond)
+				}
+				synctest.Wait()
+				select {
+				case r := <-fl.done:
+					if r.err == nil {
+						fail(fmt.Sprintf("op %d: Respond(%q) returned success although no punch packet of its attempt arrived", oi, fl.id))
+					} else if op.End == "cancel" && !errors.Is(r.err, context.Canceled) {
+						fail(fmt.Sprintf("op %d: cancelled Respond returned %v", oi, r.err))
+					} else if op.End != "cancel" && !errors.Is(r.err, ErrPunchTimeout) {
+						fail(fmt.Sprintf("op %d: timed-out Respond returned %v", oi, r.err))
+					}
+				default:
+					fail(fmt.Sprintf("op %d: Respond(%q) did not return after %s", oi, fl.id, op.End))
+				}
+				delete(metas, fl.id) // the deferred removeAttempt(attemptID)
+				o["res"] = "noevent"
+			}
+			if fl != nil {
+				fl.cancel()
+				fl = nil
+			}
 		case "pkts":
 			items := c20Load(op.Pkts, c.Buf)
 			base.q, base.pos = items, 0
 			stuns := make([]bool, len(items))
-			nexp := 0
-			for i, it := range items {
+			expPass := make([]bool, len(items)) // must the datagram come out of ReadFrom, by the shadow registry at the time it is read
+			flHit := make([]bool, len(items))   // decodes under the attempt of the Respond in flight
+			flOnly := make([]bool, len(items))  // ... and under no other registered attempt
+			// everything datagram `prev` triggered has happened
+			settle := func(prev int) {
+				synctest.Wait()
+				if fl == nil || fl.finished {
+					return
+				}
+				select {
+				case r := <-fl.done:
+					fl.finished, fl.resp = true, r
+					delete(metas, fl.id) // the deferred removeAttempt(attemptID)
+					switch {
+					case r.err != nil:
+						fail(fmt.Sprintf("op %d: Respond(%q) failed while waiting: %v", oi, fl.id, r.err))
+					case prev < 0 || !flHit[prev]:
+						fail(fmt.Sprintf("op %d: Respond(%q) returned although the last datagram (%d) is not a punch packet of its attempt", oi, fl.id, prev))
+					default:
+						ap, _ := op.Pkts[prev].Addr.addrPort()
+						d, derr := DecodePunchPacket(c20Trunc(items[prev].data, c.Buf), fl.meta)
+						if derr != nil || r.r.PeerAddr != ap || r.r.Packet != d {
+							fail(fmt.Sprintf("op %d: Respond(%q) result %+v does not describe datagram %d", oi, fl.id, r.r, prev))
+						}
+					}
+				default:
+					if prev >= 0 && flOnly[prev] {
+						fail(fmt.Sprintf("op %d: Respond(%q) did not return although datagram %d is a punch packet of its attempt", oi, fl.id, prev))
+					}
+				}
+			}
+			evaluate := func(i int) {
+				it := items[i]
 				data := c20Trunc(it.data, c.Buf)
 				if it.err {
-					nexp++
-					continue
+					expPass[i] = true
+					return
 				}
 				if s, _ := c20StunOracle(data); s {
 					stuns[i] = true
-					continue
+					return
 				}
-				hit := ""
-				nhit := 0
+				hit, nhit := "", 0
 				if _, aok := op.Pkts[i].Addr.addrPort(); aok {
 					for id, m := range metas {
 						if _, e := DecodePunchPacket(data, m); e == nil {
 							hit = id
 							nhit++
+							if fl != nil && !fl.finished && id == fl.id {
+								flHit[i] = true
+							}
 						}
 					}
 				}
-				if nhit == 0 {
-					nexp++
-				} else if nhit == 1 && len(expectQ[hit]) < defaultServerPunchEventBuffer {
-					expectQ[hit] = append(expectQ[hit], op.Pkts[i])
-				} else if nhit > 1 {
+				switch {
+				case nhit == 0:
+					expPass[i] = true
+				case nhit == 1 && flHit[i]:
+					flOnly[i] = true
+				case nhit == 1:
+					if len(expectQ[hit]) < defaultServerPunchEventBuffer {
+						expectQ[hit] = append(expectQ[hit], op.Pkts[i])
+					}
+				default:
 					expectQ["\x00ambiguous"] = append(expectQ["\x00ambiguous"], op.Pkts[i])
 				}
 			}
-			o["stun"] = stuns
-			nret := 0
+			base.hook = func(next int) {
+				settle(next - 1)
+				if next < len(items) {
+					evaluate(next)
+				}
+			}
+			rets := []c20Ret{}
+			withheldBad := func(lo, hi int) { // datagrams lo..hi-1 did not come out of ReadFrom
+				for j := lo; j < hi; j++ {
+					if expPass[j] {
+						fail(fmt.Sprintf("op %d packet %d: withheld from the reader although it is neither a STUN response nor a punch packet of an attempt that is registered at that moment (finished or removed attempts: %s)", oi, j, c20Finished(c, oi, metas)))
+					}
+				}
+			}
+			last := -1
+			buf := make([]byte, c.Buf)
 			for guard := 0; guard <= len(items)+1; guard++ {
-				buf := make([]byte, c.Buf)
-				_, _, rerr := wrapped.ReadFrom(buf)
+				for bi := range buf {
+					buf[bi] = 0xEE
+				}
+				n, addr, rerr := wrapped.ReadFrom(buf)
 				if rerr == errC20End {
 					break
 				}
-				nret++
+				idx := base.pos - 1
+				it := items[idx]
+				withheldBad(last+1, idx)
+				last = idx
+				if rerr != nil {
+					rets = append(rets, c20Ret{Err: true})
+					if rerr != errC20Injected || addr != it.addr || n != len(c20Trunc(it.data, c.Buf)) {
+						fail(fmt.Sprintf("op %d: error return of the wrapped conn was altered", oi))
+					}
+					continue
+				}
+				rets = append(rets, c20Ret{Dg: vDigest(buf[:n]), Port: op.Pkts[idx].Addr.Port})
+				if !expPass[idx] {
+					fail(fmt.Sprintf("op %d packet %d: returned to the reader although it is a STUN response / punch packet of a registered attempt", oi, idx))
+				}
+				if !bytes.Equal(buf[:n], c20Trunc(it.data, c.Buf)) {
+					fail(fmt.Sprintf("op %d packet %d: returned bytes differ from the datagram", oi, idx))
+				}
+				if addr != it.addr {
+					fail(fmt.Sprintf("op %d packet %d: returned with a different source address", oi, idx))
+				}
 			}
+			withheldBad(last+1, len(items))
+			base.hook = func(int) { synctest.Wait() }
 			synctest.Wait()
-			o["nret"] = nret
-			if nret != nexp {
-				fail(fmt.Sprintf("op %d: %d datagrams reached the reader, expected %d", oi, nret, nexp))
-			}
+			o["stun"] = stuns
+			o["ret"] = rets
 		case "take":
 			o["evs"] = takeAll(oi, op.Id)
 		}
 		opsOut = append(opsOut, o)
 	}
+	if fl != nil {
+		fl.cancel()
+	}
 	res["ops"] = opsOut
 	res["ok"] = ok
 	res["why"] = why
+}
+
+// ids that were registered at some point before op oi and are not registered any more (for the message only)
+func c20Finished(c c20Case, oi int, metas map[string]PunchMetadata) string {
+	var out []string
+	seen := map[string]bool{}
+	for i := 0; i < oi && i < len(c.Ops); i++ {
+		op := c.Ops[i]
+		if (op.Op == "add" || op.Op == "rstart") && !seen[op.Id] {
+			seen[op.Id] = true
+			if _, reg := metas[op.Id]; !reg {
+				out = append(out, strconv.Quote(op.Id))
+			}
+		}
+	}
+	return strings.Join(out, ",")
 }
 
 // ---------------------------------------------------------------- concurrent registration/removal while reading
